@@ -336,6 +336,9 @@ class Program:
                 tree = ast.parse(text, filename=rel)
             except SyntaxError as exc:
                 raise AnalysisError(f"cannot parse {rel}: {exc}") from exc
+            from sa.normal import normalise
+
+            tree = normalise(tree)
             name = rel[:-3].replace("/", ".")
             if name.endswith(".__init__"):
                 name = name[: -len(".__init__")]
